@@ -16,9 +16,12 @@
 (*  - gridn with a unit that is not > 0: the documentation does not say    *)
 (*    what is drawn; only termination is demanded (status "unspec");       *)
 (*  - the width of the thin grid lines under a non default pen width;      *)
-(*  - dash/linecap/fill of grid lines; stroke/width/dash/linecap of text   *)
+(*  - order and direction of the lines of one grid (they are compared as  *)
+(*    a set of undirected segments), their dash/linecap/fill;              *)
+(*  - stroke/width/dash/linecap of text                                    *)
 (*    ("stroke has no effect" on text) and of the background of `clear`;   *)
-(*  - the direction of the tilt of an ellipse (only its magnitude);        *)
+(*  - the direction of the tilt and of the start/end angles of an ellipse  *)
+(*    (only magnitudes; either orientation of the arc is accepted);        *)
 (*  - the default font family ("the browser default").                     *)
 (***************************************************************************)
 EXTENDS Integers, Sequences, FiniteSets, TLC
